@@ -55,6 +55,7 @@ def c08(tier):
     vg.vg2(P, C)
     ed.ed5(P, C)
     ed.ed6(P, C)
+    ed.ed7(P, C)
     C.extra["units"] = sorted(P.units.keys())
     C.extra["cfitsio_call_sites"] = n
     return C.finish()
